@@ -92,11 +92,16 @@ func (g *generator) nextTag() string {
 
 var codeLists = []string{"IMM01", "IMM", "ALL", "CTOR01", "CTOR", "CTOR03", "TONL01", "TONL", "PKGO", "PKGO01", "imm02", "Ctor02, IMM03", "IMM04 because reasons", "XYZ", "TONL02, TONL03", "PKGO02,PKGO03", "IMPL", "all"}
 
+var hotCodes = []string{"PKGO01", "TONL01", "PKGO", "TONL", "ALL", "IMM01", "CTOR01", "IMM", "CTOR", "pkgo01", "Tonl01, PKGO01"}
+
 func (g *generator) ignoreComment() string {
+	if g.r.Chance(1, 2) {
+		return "// @ignore " + rng.Pick(g.r, hotCodes)
+	}
 	return "// @ignore " + rng.Pick(g.r, codeLists)
 }
 
-var nearMisses = []string{"// see @immutable for details", "// @Immutable", "// @immutablex", "/* @immutable */", "// TODO @constructor New", "//@testonlyish", "// @ packageonly", "// not @mutable", "// @IGNORE IMM01", "// @ignoreIMM01", "// x // @testonly"}
+var nearMisses = []string{"// NOTE: the old line read: // @testonly (removed)", "// was: // @immutable", "// x // @packageonly svc","// see @immutable for details", "// @Immutable", "// @immutablex", "/* @immutable */", "// TODO @constructor New", "//@testonlyish", "// @ packageonly", "// not @mutable", "// @IGNORE IMM01", "// @ignoreIMM01", "// x // @testonly"}
 
 func (g *generator) local(base string) string {
 	if g.o.RenameLocals {
@@ -113,13 +118,18 @@ func (g *generator) typeRef(p *gpkg, t *gtype, site int) string {
 	}
 	switch g.o.Spelling {
 	case 1, 2:
-		return "A" + t.pkg.name + t.name // alias declared in p (1) or re-exported through alias package (2, rendered in p too)
+		return "A" + aliasKey(t) // alias declared in p (1) or re-exported through alias package (2, rendered in p too)
 	case 4:
 		if site >= 0 && site%2 == 0 {
 			return "(" + direct + ")"
 		}
 	}
 	return direct
+}
+
+func aliasKey(t *gtype) string {
+	k := strings.NewReplacer("/", "_", ".", "_").Replace(strings.TrimPrefix(t.pkg.path, "exp/"))
+	return k + t.name
 }
 
 func allowText(list []string) string {
@@ -146,8 +156,14 @@ func Generate(seed uint64, o Options) *Module {
 	var pkgs []*gpkg
 	var decls []*gpkg
 	userNames := []string{"alpha", "beta", "okname", "svc"}
+	sameDeclName := r.Chance(1, 3)
+	sameUserName := r.Chance(1, 4)
 	for i := 0; i < nDecl; i++ {
 		p := &gpkg{path: fmt.Sprintf("%s/d%d", base, i), name: fmt.Sprintf("d%d", i), alias: map[*gpkg]string{}}
+		if sameDeclName {
+			p.path += "/model"
+			p.name = "model"
+		}
 		if i > 0 && r.Chance(1, 2) {
 			p.imports = append(p.imports, decls[0])
 		}
@@ -157,6 +173,9 @@ func Generate(seed uint64, o Options) *Module {
 	var users []*gpkg
 	for i := 0; i < nUser; i++ {
 		nm := userNames[i%len(userNames)]
+		if sameUserName {
+			nm = "svc"
+		}
 		p := &gpkg{path: fmt.Sprintf("%s/u%d/%s", base, i, nm), name: nm, alias: map[*gpkg]string{}}
 		if r.Chance(1, 4) {
 			p.name = nm + "x" // package name differs from the last path element
@@ -170,10 +189,15 @@ func Generate(seed uint64, o Options) *Module {
 		pkgs = append(pkgs, p)
 	}
 	for _, p := range pkgs {
-		for _, im := range p.imports {
+		seenName := map[string]bool{p.name: true}
+		for k, im := range p.imports {
 			p.alias[im] = im.name
+			if seenName[im.name] {
+				p.alias[im] = fmt.Sprintf("%s%d", im.name, k)
+			}
+			seenName[im.name] = true
 			if g.o.Spelling == 3 {
-				p.alias[im] = "ren" + im.name
+				p.alias[im] = fmt.Sprintf("ren%s%d", im.name, k)
 			}
 		}
 	}
@@ -366,6 +390,10 @@ func (g *generator) wrap(stmts []string) []string {
 				fn := g.local(fmt.Sprintf("fn%d", g.lv))
 				lines = append(append([]string{fn + " := func() {"}, ind(lines)...), "}", fn+"()")
 			}
+			if g.o.Ignores && r.Chance(1, 10) {
+				// a trailing @ignore on a line that holds only closing tokens
+				lines[len(lines)-1] += " " + g.ignoreComment()
+			}
 		}
 		out = append(out, lines...)
 	}
@@ -447,14 +475,47 @@ func (g *generator) renderPkg(m *Module, p *gpkg, decls []*gpkg) {
 			if t.pkg != p {
 				direct = p.alias[t.pkg] + "." + t.name
 			}
-			add("type A" + t.pkg.name + t.name + " = " + direct)
+			add("type A" + aliasKey(t) + " = " + direct)
 		}
 	}
 	// declarations of own types, constructors, methods
+	var grouped []string
+	if len(p.types) > 0 {
+		// an unannotated type; in a group it follows / precedes documented annotated specs without a doc of its own
+		grouped = append(grouped, "\tPlain struct{ X int }")
+	}
 	for _, t := range p.types {
+		if t.docStyle == 1 {
+			td := g.typeDecl(t)[0]
+			td = strings.TrimSuffix(strings.TrimPrefix(td, "type (\n"), "\n)")
+			if r.Bool() {
+				grouped = append(grouped, td)
+			} else {
+				grouped = append([]string{td}, grouped...)
+			}
+			continue
+		}
 		for _, td := range g.typeDecl(t) {
 			add(td)
 		}
+	}
+	if len(grouped) > 0 {
+		add("type (\n" + strings.Join(grouped, "\n") + "\n)")
+	}
+	if len(p.types) > 0 {
+		add("func UsePlain(pl *Plain) {\n" + indent([]string{"pl.X = 1 " + g.nextTag(), "pl.X++ " + g.nextTag(), "_ = Plain{} " + g.nextTag(), "_ = new(Plain) " + g.nextTag(), "var zp Plain " + g.nextTag(), "_ = zp"}) + "}")
+		if len(p.funcs) > 0 {
+			// an unannotated method that merely shares its name with a (possibly @testonly) function of the package
+			f0 := p.funcs[0]
+			var vars []scopeVar
+			for _, t := range p.types {
+				vars = append(vars, scopeVar{"r", t, true})
+				break
+			}
+			add("func (pl *Plain) " + f0.name + "(r *" + p.types[0].name + ") {\n" + indent(g.body(p, vars, []string{"_ = " + f0.name + "()"}, 3)) + "}")
+		}
+	}
+	for _, t := range p.types {
 		for _, cn := range t.ctors {
 			var b []string
 			if t.kind == 0 {
@@ -580,6 +641,27 @@ func (g *generator) renderPkg(m *Module, p *gpkg, decls []*gpkg) {
 		}
 	}
 
+	if g.o.NearMiss {
+		// near-miss annotations at non-effective sites: trailing comment of a type without doc, mid-sentence
+		// doc lines with their own slashes, annotation on a local type, on a var, floating
+		add("type Gauge struct{ X int } // @immutable in spirit only")
+		add("// NOTE: the old line read: // @testonly (removed)\n// was: // @packageonly nobody\nfunc Legacy() int { return 1 }")
+		add("// @immutable\n// @constructor NewNothing\nvar NotAType = 1")
+		add("// @testonly\n\nfunc DetachedDoc() int { return 2 }")
+		add("func UseGauge(gg *Gauge) {\n" + indent([]string{"gg.X = 1 " + g.nextTag(), "_ = Gauge{} " + g.nextTag(), "_ = Legacy() " + g.nextTag(), "_ = DetachedDoc() " + g.nextTag(),
+			"// @immutable", "type localT struct{ Y int }", "var lt localT " + g.nextTag(), "lt.Y = 2 " + g.nextTag(), "_ = lt"}) + "}")
+	}
+	if g.o.Ignores && r.Chance(1, 5) && len(visible) > 0 {
+		// generated code: a //line directive followed by trailing @ignore comments
+		t := rng.Pick(r, visible)
+		vars := []scopeVar{{"v", t, true}}
+		add("//line gen.y:1000\nfunc FromGenerator(v *" + g.typeRef(p, t, 0) + ") {\n" + indent(g.body(p, vars, nil, 4)) + "}")
+	}
+	if g.o.TestFiles {
+		add("func UseExcl() int { return ExclHelper() " + g.nextTag() + " }")
+		add("func UseExclType() { var e ExclMock " + g.nextTag() + "; e.Touch() " + g.nextTag() + " }")
+	}
+
 	// ---- layout: assign blocks to files, permute
 	files := make([][]string, nFiles)
 	order := make([]int, len(blocks))
@@ -602,7 +684,7 @@ func (g *generator) renderPkg(m *Module, p *gpkg, decls []*gpkg) {
 	}
 	var imports []string
 	for _, im := range p.imports {
-		if g.o.Spelling == 3 {
+		if p.alias[im] != im.name {
 			imports = append(imports, fmt.Sprintf("\t%s %q", p.alias[im], im.path))
 		} else {
 			imports = append(imports, fmt.Sprintf("\t%q", im.path))
@@ -650,7 +732,7 @@ func (g *generator) renderPkg(m *Module, p *gpkg, decls []*gpkg) {
 		imp := ""
 		for _, im := range p.imports {
 			if strings.Contains(body, p.alias[im]+".") {
-				if g.o.Spelling == 3 {
+				if p.alias[im] != im.name {
 					imp += fmt.Sprintf("import %s %q\n", p.alias[im], im.path)
 				} else {
 					imp += fmt.Sprintf("import %q\n", im.path)
@@ -667,5 +749,11 @@ func (g *generator) renderPkg(m *Module, p *gpkg, decls []*gpkg) {
 			ex += "\n// @immutable\n// @testonly\ntype ExcludedOnly struct{ Y int }\n\nfunc touchExcluded(e *ExcludedOnly) { e.Y = 1 }\n"
 		}
 		m.Files[dir+"/gen_testdata_x.go"] = ex
+	}
+	if g.o.TestFiles {
+		// annotated functions / methods / types in an excluded (non-test) file: inert, whoever uses them
+		m.Files[dir+"/zz_testdata_decl.go"] = "package " + p.name + "\n\n// @testonly\n// @packageonly nobody\nfunc ExclHelper() int { return 1 }\n\n// @testonly\ntype ExclMock struct{ Z int }\n\n// @testonly\nfunc (e *ExclMock) Touch() {}\n"
+		// external test package
+		m.Files[dir+"/ext_test.go"] = "package " + p.name + "_test\n\nimport \"testing\"\n\nfunc TestNothing(t *testing.T) {}\n"
 	}
 }
